@@ -46,6 +46,7 @@ type fieldCfg struct {
 	Mutex   string // guarding mutex ("" = family default)
 	Pointee string // "" : only the field itself is state; "ro:<table>" : pointee with a read-only method table; "fam:<key>" : pointee is an object of that family
 	Plain   bool   // calls through the field do not touch this object's state (interface / func value with its own synchronisation): a call is a read of the field
+	Nested  bool   // the field may hold an object of the SAME family (a Flushable wrapping a Flushable): a call through it while the lock is held nests a deeper instance of the same lock class
 }
 
 type family struct {
@@ -82,7 +83,7 @@ var families = []*family{
 		Guard: map[string]fieldCfg{
 			"modified":       {Pointee: "ro:rbt"},
 			"sizeEstimation": {},
-			"underlying":     {Plain: true}, // written by LazyFlushable.initUnderlyingDb
+			"underlying":     {Plain: true, Nested: true}, // written by LazyFlushable.initUnderlyingDb; may itself be a Flushable
 			"producer":       {Plain: true},
 		},
 		// onDrop/close/drop: callbacks fixed at construction; parentSnap: fixed at construction
@@ -773,6 +774,16 @@ func (sc *scan) call(st lockState, fr *frame, c *ast.CallExpr, deferred bool) {
 			}
 		}
 	case "field":
+		if len(r.rest) >= 1 && r.cfg.Nested && st != nil {
+			// e.g. flush(): w.underlying.NewBatch() ... Write() with w.lock held; if the parent is a Flushable too,
+			// its lock is taken inside: (flushable.lock, flushable.lock@underlying) = same class, one level deeper
+			for hk := range st {
+				parts := strings.Split(hk, "\x00")
+				if len(parts) == 3 && parts[0] == r.owner && parts[1] == r.fam.Key {
+					lockEdges[parts[1]+"."+parts[2]+" "+r.fam.Key+"."+r.cfg.Mutex+"@"+r.name] = true
+				}
+			}
+		}
 		if len(r.rest) == 1 { // method call on the guarded field
 			if strings.HasPrefix(r.cfg.Pointee, "fam:") && st != nil {
 				if pf := familyByKey(r.cfg.Pointee[4:]); pf != nil && !pf.Inner { // the pointee locks itself
